@@ -163,7 +163,7 @@ func diff(want, got []string) string {
 // scenarios
 
 type scenario struct {
-	Kind     string `json:"kind"` // "announce" | "full-table"
+	Kind     string `json:"kind"` // "announce" | "full-table" | "forward"
 	CaseSeed int64  `json:"case_seed"`
 	NCIDR    int    `json:"n_cidr"`
 	NDomain  int    `json:"n_domain"`
@@ -238,8 +238,9 @@ func populate(r *vh.Rand, n *node, sc scenario, salt int) {
 }
 
 type runner struct {
-	c   *vh.Ctx
-	coq []string
+	c      *vh.Ctx
+	coq    []string
+	maxRec int // at most this many correspondence cases (the monitors run on every scenario)
 }
 
 // payloadsOf extracts the RouteAdvertise payloads from wire messages and, by
@@ -268,16 +269,20 @@ func cRoute(rt protocol.Route) string {
 	return fmt.Sprintf("(%d, (%d, (%s, %d)))", rt.AddressFamily, rt.PrefixLength, cB(rt.Prefix), rt.Metric)
 }
 func cIDs(ids []identity.AgentID) string {
-	items := make([]string, len(ids))
-	for i, id := range ids {
-		items[i] = cB(id[:])
+	raw := make([][]byte, len(ids))
+	for i := range ids {
+		raw[i] = ids[i][:]
 	}
-	return vh.CoqList(items)
+	return cq.IDs(raw)
 }
 
 // record adds one correspondence case: an announcement group (one origin) as
 // emitted: the concatenated route list in emission order and the payloads.
 func (rn *runner) record(sc scenario, origin identity.AgentID, payloads [][]byte, advs []*protocol.RouteAdvertise) {
+	if len(rn.coq) >= rn.maxRec {
+		rn.c.Count("monitor-only")
+		return
+	}
 	var routes []string
 	var name string
 	var seq1 uint64
@@ -434,10 +439,84 @@ func (rn *runner) runFullTable(sc scenario) {
 	}
 }
 
+// runForward: an origin's announcement reaches agent M after many hops (path and
+// seen-by list of 254 agents each); M learns the routes and re-floods the
+// advertisement, with itself added to both lists, to its peer N. N must learn
+// the origin's set: every group the origin formed must still fit a frame.
+func (rn *runner) runForward(sc scenario) {
+	c := rn.c
+	r := vh.NewRand(sc.CaseSeed)
+	oID, mID, pID, nID := mkID(r, 0xA1), mkID(r, 0xC1), mkID(r, 0xD1), mkID(r, 0xE1)
+	o := newNode(oID, label(r, sc.NameLen), mID)
+	m := newNode(mID, "m", pID, nID)
+	nb := newNode(nID, "nb")
+	defer o.fl.Stop()
+	defer m.fl.Stop()
+	defer nb.fl.Stop()
+	populate(r, o, sc, 1)
+	o.fl.AnnounceLocalRoutes()
+	hops := make([]identity.AgentID, 252)
+	for i := range hops { // blocks of constant identifiers (cheap to print)
+		for j := range hops[i] {
+			hops[i][j] = byte(0x50 + i/90)
+		}
+	}
+	for _, w := range o.snd.wire {
+		fr, err := protocol.Decode(w.data)
+		if err != nil {
+			continue
+		}
+		adv, err := protocol.DecodeRouteAdvertise(fr.Payload)
+		if err != nil {
+			continue
+		}
+		// what the 253 agents in between (252 + P) turn the advertisement into: the last of them is P
+		path := append(append([]identity.AgentID{pID}, hops...), adv.Path...)
+		seen := append(append([]identity.AgentID{}, adv.SeenBy...), append(hops, pID)...)
+		fwd := &protocol.RouteAdvertise{OriginAgent: adv.OriginAgent, OriginDisplayName: adv.OriginDisplayName, Sequence: adv.Sequence,
+			Routes: adv.Routes, Path: path, SeenBy: seen}
+		m.fl.HandleRouteAdvertise(pID, fwd.OriginAgent, fwd.OriginDisplayName, fwd.Sequence, fwd.Routes,
+			&protocol.EncryptedData{Encrypted: false, Data: protocol.EncodePath(path)}, fwd.SeenBy)
+	}
+	var derr []string
+	var toN []wireMsg
+	for _, w := range m.snd.wire {
+		if w.to != nID {
+			continue
+		}
+		toN = append(toN, w)
+		if e := nb.deliver(mID, w.data); e != "" {
+			derr = append(derr, e)
+		}
+	}
+	want := tableOf(o, nil, 1)[oID.String()]
+	want = append(want, fmt.Sprintf("a|%s|1", oID.String()))
+	sort.Strings(want)
+	got := tableOf(nb, nil, 0)[oID.String()]
+	c.Count(fmt.Sprintf("forward:frames=%d", len(toN)))
+	if d := diff(want, got); d != "" || len(derr) > 0 || len(m.snd.sendErrs) > 0 {
+		sig := "forward-mismatch"
+		if len(m.snd.sendErrs) > 0 {
+			sig = "forward-frame-too-large"
+		}
+		c.Fail(sig, fmt.Sprintf("re-flooded %d advertisement(s) at hop 255; downstream learned %d of %d; %s; send errors %v; decode errors %v",
+			len(toN), len(got), len(want), d, m.snd.sendErrs, derr), sc)
+	}
+	payloads, advs, _ := payloadsOf(toN)
+	for i := range payloads {
+		if advs[i] != nil {
+			rn.record(sc, oID, payloads[i:i+1], advs[i:i+1])
+		}
+	}
+}
+
 func (rn *runner) run(sc scenario) {
-	if sc.Kind == "full-table" {
+	switch sc.Kind {
+	case "full-table":
 		rn.runFullTable(sc)
-	} else {
+	case "forward":
+		rn.runForward(sc)
+	default:
 		rn.runAnnounce(sc)
 	}
 }
@@ -448,7 +527,7 @@ func main() {
 	c.Res.Rule = "case = one announcement group (all frames one AnnounceLocalRoutes / one origin group of SendFullTable emitted): " +
 		"payload bytes compared with Model/Announce.v's builder on the emitted route list; non-trivial = at least 2 routes and all " +
 		"frames decodable; distinct = distinct (kind, route counts, field lengths). The monitor compares the receiving routing tables with the sender's."
-	rn := &runner{c: c}
+	rn := &runner{c: c, maxRec: c.N(1000, 150)}
 
 	if c.Replay != "" {
 		var sc scenario
@@ -471,6 +550,8 @@ func main() {
 		{Kind: "announce", Name: "display-name-300-bytes", NCIDR: 3, NDomain: 2, LongDom: 12, NameLen: 300},
 		{Kind: "announce", Name: "domain-patterns-300-bytes", NCIDR: 2, NDomain: 3, LongDom: 300, NameLen: 4},
 		{Kind: "announce", Name: "forward-keys-300-bytes", NCIDR: 2, NForward: 3, LongFwd: 300, NameLen: 4},
+		{Kind: "forward", Name: "long-domains-after-255-hops", NDomain: 70, LongDom: 250, NameLen: 255},
+		{Kind: "forward", Name: "mixed-after-255-hops", NCIDR: 120, NDomain: 20, NForward: 20, LongDom: 200, LongFwd: 240, NameLen: 8},
 		{Kind: "full-table", Name: "two-origins-300-each", NCIDR: 300, NDomain: 3, NForward: 3, LongDom: 12, LongFwd: 6, Origins: 2, NameLen: 4},
 		{Kind: "full-table", Name: "long-domains", NDomain: 80, LongDom: 250, LongFwd: 6, Origins: 1, NameLen: 4},
 	}
@@ -504,7 +585,12 @@ func main() {
 				}
 			}
 		}
-		if c.Rand.Chance(1, 4) {
+		if c.Rand.Chance(1, 8) {
+			sc.Kind = "forward"
+			if sc.NCIDR > 300 {
+				sc.NCIDR = 300
+			}
+		} else if c.Rand.Chance(1, 4) {
 			sc.Kind, sc.Origins = "full-table", c.Rand.Pick(1, 2, 3)
 			if sc.NCIDR > 260 {
 				sc.NCIDR = 260
